@@ -171,6 +171,43 @@ pub mod t {
         let _ = c.add(1, 2);
     }
 }
+/// FlexBuffer (the argument / return buffer for signatures without a compile-time size): two writes of
+/// concrete sizes around the 64-byte inline capacity, symbolic contents: len() and every byte equal the
+/// concatenation, inline and spilled.
+macro_rules! fb_harness {
+    ($name:ident, $first:expr, $second:expr) => {
+        kproof!($name, 4, {
+            use std::io::Write;
+            let a: [u8; $first] = kani::any();
+            let b: [u8; $second] = kani::any();
+            let mut f = FlexBuffer::new();
+            f.write_all(&a).unwrap();
+            f.write_all(&b).unwrap();
+            assert!(f.len() == $first + $second, "C09: FlexBuffer length differs from the bytes written");
+            let i: usize = kani::any();
+            kani::assume(i < $first + $second);
+            let got = unsafe { *f.as_ptr().add(i) };
+            let want = if i < $first { a[i] } else { b[i - $first] };
+            assert!(got == want, "C09: FlexBuffer content differs from the bytes written (inline/spill boundary)");
+            std::mem::forget(f);
+            kani::cover!(true, "reached end");
+        });
+    };
+}
+pub mod fb {
+    use super::*;
+    fb_harness!(w64_1, 64, 1);
+    fb_harness!(w64_4, 64, 4);
+    fb_harness!(w63_1, 63, 1);
+    fb_harness!(w63_2, 63, 2);
+    fb_harness!(w60_4, 60, 4);
+    fb_harness!(w60_8, 60, 8);
+    fb_harness!(w56_8, 56, 8);
+    fb_harness!(w65_1, 65, 1);
+    fb_harness!(w1_64, 1, 64);
+    fb_harness!(w32_33, 32, 33);
+    fb_harness!(w12_52, 12, 52);
+}
 /// Out of reach on this machine (measured with jobs=1: out of memory > 45 GB, or no result in 40 min);
 /// kept for documentation and manual runs, not part of any tier.
 pub mod x {
